@@ -76,8 +76,14 @@ func editCorpus(bases []string, stride int) []string {
 }
 
 // insertCorpus: a token of a small alphabet inserted before, or replacing, every token.
+// characters no token can contain, alone and after a misplaced word (a typing slip)
+var strayAlphabet = []string{";", "'", "#", "?", "é", "@", "$", "\"", "kept @", "to ;", "'v'", "max #", "1 ?", "from é", "remaining $", ", ."}
+
 func insertCorpus(bases []string, stride int) []string {
-	alphabet := []string{",", "=", "max", "from", "to", "(", ")", "{", "}", "$x", "@a", "1", "+", "remaining", "kept", "*", "[", "]", "1/2", "\"s\""}
+	return insertCorpusOf(bases, stride, []string{",", "=", "max", "from", "to", "(", ")", "{", "}", "$x", "@a", "1", "+", "remaining", "kept", "*", "[", "]", "1/2", "\"s\""})
+}
+
+func insertCorpusOf(bases []string, stride int, alphabet []string) []string {
 	var out []string
 	n := 0
 	for bi, b := range bases {
@@ -131,7 +137,14 @@ func c18Texts(tier string) []string {
 	if tier == "thorough" {
 		istride = 7
 	}
-	return dedupe(append(append(editCorpus(bases, stride), insertCorpus(bases, istride)...), extraTexts...))
+	strayStride := istride * 6
+	if tier == "thorough" {
+		strayStride = istride * 2
+	}
+	texts := append(append(editCorpus(bases, stride), insertCorpus(bases, istride)...), extraTexts...)
+	texts = append(texts, insertCorpusOf(bases, strayStride, strayAlphabet)...)
+	texts = append(texts, "set_tx_meta(\"k\", 'v')", "send [USD 1] (\n source = @a\n destination = @b kept @\n)", "send [USD 1] ( source = @a ; destination = @b )", "vars { number $n ? }")
+	return dedupe(texts)
 }
 
 func init() {
